@@ -139,7 +139,7 @@ def _init_unproved():
 
 _init_unproved()
 NAME_MODES = ['str', 'int0', 'empty0', 'person', 'tuple']
-REQUIRED_COUNTERS = (['score_fraction_counts', 'score_large_factor', 'scale', 'near_tie', 'equal_rational', 'beyond_2^53', 'modelled',
+REQUIRED_COUNTERS = (['score_fraction_counts', 'score_large_factor', 'scale', 'near_tie', 'equal_rational', 'beyond_2^53', 'modelled', 'qd_options', 'qd_policy_subtract', 'qd_prev_gains', 'qd_caps',
                       'lr_equal_remainders', 'pure_total_below_one', 'approval_later_seat_level', 'threshold_boundary', 'coef_tie', 'coef_as_decimal', 'coef_as_float', 'exact_half_or_quota', 'odd_total_half', 'even_factor']
                      + ['m:' + f for f in PROVED_FAMILIES])      # every proved family is also run through its Lean model
 RULE = ('every scale-free evaluator family of the quantifier (plurality, divisor methods, largest remainder with exact quotas, '
@@ -264,6 +264,36 @@ def generate(rng, tier):
                 k = [2, 3, 7, 100, 10 ** 6, 10 ** 25 + 7][t % 6]
                 yield {'op': 'scale', 'family': f.name, 'prof': [[i, num_str(v)] for i, v in enumerate(vals)], 'n': n, 'k': str(k),
                        '_tags': ['scale', tag] + (['beyond_2^53'] if k > 2 ** 53 else [])}
+    # the quota distributor / largest remainder with EVERY option of the constructor and of evaluate(): exact quota x over-award
+    # policy x accept_equal x previous gains x caps, on small electorates where surpluses and remainders are close (previous gains and
+    # caps are seat counts: only the votes are scaled) - theorems quotaDistributor_scale / largestRemainder_scale hold for every cfg
+    for t in range(80 if tier == 'quick' else 2500):
+        m = rng.randint(2, 5)
+        quota = rng.choice(['hare', 'hagenbach_bischoff', 'imperiali', 'imperiali'])
+        pol = rng.choice(['error', 'subtract', 'subtract', 'ignore'])
+        if t % 3 == 0:
+            vals = [Fraction(rng.randint(1, 30), rng.choice([1, 2, 3, 7])) for _ in range(m)]
+        else:
+            vals = [rng.choice([0, 1, 2, 3, 4, 5, 7]) if rng.random() < 0.5 else rng.randint(1, 40) for _ in range(m)]
+        if sum(vals) == 0:
+            vals[0] = 3
+        n = rng.randint(1, 8)
+        prev = []
+        if rng.random() < 0.6:
+            left = n
+            for i in rng.sample(range(m), rng.randint(1, m)):
+                g = rng.randint(0, min(2, left))
+                if g:
+                    prev.append([i, g]); left -= g
+        caps = []
+        if rng.random() < 0.3:
+            pd = dict(prev)
+            caps = [[i, pd.get(i, 0) + rng.randint(0, 3)] for i in rng.sample(range(m), rng.randint(1, m))]
+        k = (MULTIPLIERS + [100])[t % (len(MULTIPLIERS) + 1)]
+        yield {'op': 'scale_qd', 'kind': rng.choice(['lr', 'lr', 'qd']), 'quota': quota, 'on_overaward': pol, 'accept_equal': rng.random() < 0.7,
+               'prof': [[i, num_str(v)] for i, v in enumerate(vals)], 'n': n, 'prev': prev, 'max': caps, 'k': str(k),
+               '_tags': ['scale', 'qd_options', 'qd_policy_' + pol] + (['qd_prev_gains'] if prev else []) + (['qd_caps'] if caps else []) +
+                        (['beyond_2^53'] if k > 2 ** 53 else [])}
     # exactly half is not a majority, exactly the quota is the quota - at magnitudes where a float quota is off by 10^9:
     # Bucklin/Oklahoma: the first choice of exactly half of the voters, everybody's second choice wins in round 2;
     # STV-Gregory-Hare: a candidate holding exactly the Hare quota on first preferences
@@ -339,6 +369,21 @@ def impl(case):
         base = fam_mod.run_family(f, case['prof'], case['n'], NAMES)
         scaled = fam_mod.run_family(f, fam_mod.scale(case['prof'], Fraction(case['k'])), case['n'], NAMES)
         return {'base': base, 'scaled': scaled}
+    if case['op'] == 'scale_qd':
+        import votelib.evaluate.proportional as vp
+        cls = vp.LargestRemainder if case['kind'] == 'lr' else vp.QuotaDistributor
+        prev = {NAMES.n(i): g for i, g in case['prev']}
+        caps = {NAMES.n(i): g for i, g in case['max']}
+
+        def run(prof):
+            ev = cls(case['quota'], accept_equal=case['accept_equal'], on_overaward=case['on_overaward'])
+            kw = {}
+            if prev:
+                kw['prev_gains'] = dict(prev)
+            if caps:
+                kw['max_seats'] = dict(caps)
+            return guarded(lambda: enc_distribution(ev.evaluate(fam_mod.build('simple', prof, NAMES), case['n'], **kw), NAMES))
+        return {'base': run(case['prof']), 'scaled': run(fam_mod.scale(case['prof'], Fraction(case['k'])))}
     if case['op'] == 'coef_tie':
         import votelib.evaluate.proportional as vp
         import votelib.component.divisor as vd
@@ -385,6 +430,11 @@ def oracle(case, obs):
         b, s = canon(obs['base']), canon(obs['scaled'])
         if f.scale_free and b != s:
             out.append(('outcome_changed_by_scaling', f'{f.name} k={case["k"]}: {json.dumps(b)} vs {json.dumps(s)}'))
+    elif case['op'] == 'scale_qd':
+        b, sc = canon(obs['base']), canon(obs['scaled'])
+        if b != sc:
+            out.append(('outcome_changed_by_scaling', f"{case['kind']}({case['quota']}, on_overaward={case['on_overaward']}, accept_equal="
+                        f"{case['accept_equal']}) prev={case['prev']} max={case['max']} k={case['k']}: {json.dumps(b)} vs {json.dumps(sc)}"))
     elif case['op'] == 'near_tie':
         if obs != [0]:
             out.append(('near_tie_treated_as_tie', str(obs)))
@@ -404,13 +454,16 @@ def signature(case, clause):
 
 
 def nontrivial(case, obs):
-    if case['op'] == 'scale':
+    if case['op'] in ('scale', 'scale_qd'):
         return not (isinstance(obs['base'], dict) and 'err' in obs['base'])
     return True
 
 
 def model_line(case):
     """the Lean models of the proved families evaluate the SCALED profile; compared with the implementation's scaled run"""
+    if case['op'] == 'scale_qd':
+        return {'op': case['kind'], 'quota': case['quota'], 'accept_equal': case['accept_equal'], 'on_overaward': case['on_overaward'],
+                'n': case['n'], 'votes': fam_mod.scale(case['prof'], Fraction(case['k'])), 'prev': case['prev'], 'max': case['max']}
     if case['op'] == 'scale':
         f = case['family']
         prof = fam_mod.scale(case['prof'], Fraction(case['k']))
@@ -479,7 +532,7 @@ def model_line(case):
 
 
 def compare(case, iobs, mobs):
-    got = iobs['scaled'] if case['op'] == 'scale' else iobs
+    got = iobs['scaled'] if case['op'] in ('scale', 'scale_qd') else iobs
     if case['op'] == 'scale' and case['family'] in ('bucklin', 'oklahoma', 'baldwin') and \
             any(isinstance(it, list) for b, _ in case['prof'] for it in b):
         # shared ranks: the model iterates them in protocol order, Python in frozenset order - the order among equally placed
@@ -508,7 +561,7 @@ def compare(case, iobs, mobs):
         if a != b:
             return f'impl={json.dumps(a)} model={json.dumps(b)} (runs of equal value sorted)'
         return None
-    if case['op'] == 'scale' and case['family'].startswith(DIST_FAMILIES):
+    if case['op'] == 'scale_qd' or (case['op'] == 'scale' and case['family'].startswith(DIST_FAMILIES)):
         a, b = canon(got), canon_dist(mobs)
     else:
         a, b = canon(got), canon(mobs)
@@ -531,10 +584,22 @@ def generate(rng, tier):    # noqa
 def describe(case):
     if case['op'] == 'scale':
         return f"{case['family']}: evaluate(profile, {case['n']}) vs evaluate(profile x {case['k']}, {case['n']}); profile={case['prof']}"
+    if case['op'] == 'scale_qd':
+        cls = 'LargestRemainder' if case['kind'] == 'lr' else 'QuotaDistributor'
+        return (f"{cls}({case['quota']!r}, accept_equal={case['accept_equal']}, on_overaward={case['on_overaward']!r}).evaluate(profile, "
+                f"{case['n']}, prev_gains={dict(map(tuple, case['prev']))}, max_seats={dict(map(tuple, case['max']))}) vs the same on profile x "
+                f"{case['k']}; profile={case['prof']}")
     return json.dumps(strip_case(case))
 
 
 def shrink_candidates(case):
+    if case['op'] == 'scale_qd':
+        for key in ('max', 'prev'):
+            for i in range(len(case[key])):
+                c = dict(case)
+                c[key] = case[key][:i] + case[key][i+1:]
+                yield c
+        return
     if case['op'] != 'scale':
         return
     p = case['prof']
